@@ -48,6 +48,8 @@ pub struct Swarm {
     pub legal_faults: bool,
     pub long_names: bool,
     pub unit_as: bool,
+    /// two distinct types share one TypeScript name (in different files, never needed together)
+    pub homonyms: bool,
 }
 
 const NAME_STEMS: &[&str] = &[
@@ -363,6 +365,45 @@ pub fn draw_universe(rng: &mut Rng, sw: &Swarm, n_syn: usize) -> Universe {
             table.syn[mate].ident = "Sibling".into();
         }
     }
+    // two distinct types with one TypeScript name (`v1::Item`, `v2::Item`): legal as long as no
+    // file declares or needs both. Files are compared after lexical normalisation under a deep
+    // working directory, so that two spellings of one file count as one.
+    if sw.homonyms && exportable.len() >= 3 {
+        let key = |slot: usize| model::norm("/h/h/h/h/h/h/h/h", table.syn[slot].path.as_deref().unwrap_or("")).unwrap_or_default();
+        let mut pairs: Vec<(usize, usize)> = vec![];
+        for &x in &exportable {
+            for &y in &exportable {
+                if x >= y || key(x) == key(y) || table.syn[x].ident == "Sibling" || table.syn[y].ident == "Sibling" {
+                    continue;
+                }
+                // per file: the types it holds and everything they name
+                let clash = exportable.iter().any(|&f| {
+                    let mut has_x = false;
+                    let mut has_y = false;
+                    for &m in exportable.iter().filter(|&&m| key(m) == key(f)) {
+                        for t in std::iter::once(m).chain(table.syn[m].deps.iter().copied()) {
+                            has_x |= t == x;
+                            has_y |= t == y;
+                        }
+                    }
+                    has_x && has_y
+                });
+                if !clash {
+                    pairs.push((x, y));
+                }
+            }
+        }
+        if !pairs.is_empty() {
+            let (x, y) = *rng.pick(&pairs);
+            let old = table.syn[y].ident.clone();
+            let new = table.syn[x].ident.clone();
+            for s in exportable.iter() {
+                let body = table.syn[*s].body.clone();
+                table.syn[*s].body = replace_word(&body, &old, &new);
+            }
+            table.syn[y].ident = new;
+        }
+    }
     if sw.der {
         let mut hs: Vec<usize> = (0..corpus::DER_HANDLES).collect();
         // the literal family has a `../` escape of its own
@@ -436,10 +477,12 @@ fn draw_swarm(rng: &mut Rng) -> Swarm {
         legal_faults: rng.pct(50),
         long_names: false,
         unit_as: false,
+        homonyms: false,
     };
     // drawn last so that adding the switch did not shift earlier draws
     sw.long_names = rng.pct(10);
     sw.unit_as = rng.pct(3);
+    sw.homonyms = rng.pct(15);
     if !sw.der && !sw.syn {
         sw.syn = true;
     }
